@@ -46,7 +46,6 @@ impl MT192 {
 
         verify_parser_complete(&parser)?;
 
-
         Ok(MT192 {
             field_20,
             field_21,
